@@ -89,7 +89,7 @@ Proof. intros Hfd Hr. eapply okp_bind; [apply close_ok; exact Hfd|]. intros _ _.
 (* Resolver::open: disciplined; only the reopen through procfs may follow *)
 Theorem r_open_ok rs root path fl : rfd root -> okf Qfd (r_open rs root path fl).
 Proof.
-  intro Hr. unfold RootM.r_open. destruct (intersects fl RESOLVER_OPEN_REFUSED); [constructor; exact I|].
+  intro Hr. unfold RootM.r_open. destruct (_ || _); [constructor; exact I|].
   destruct (rs_kernel rs) eqn:Ek; [weak; apply k_open_ok; exact Hr|].
   eapply okp_bindR; [weak; apply r_resolve_ok; exact Hr| |intro; exact I]. intros h Hh.
   unfold os. eapply okp_bind; [weak; apply okp_map_err, w_fstatat_ok; [exact Hh|reflexivity]|]. intros r _.
